@@ -22,7 +22,7 @@ MANIFEST = {
             "(c11_scan_exact, c11_processor_gets_exactly), and the write footprint is exactly the reachable exported "
             "recognised fields — unexported, untagged, foreign-tagged fields and everything inside a struct that is not "
             "entered stay outside (c11_frame, c11_frame_untouched). Tied to the code on every run by vm_compute against real "
-            "App.Run starts with before/after snapshots of every field and a recording user tag processor; the logger every logger point receives (c11_logger_flatten)",
+            "App.Run starts with before/after snapshots of every field and a recording user tag processor; the logger every logger point receives (c11_logger_flatten); custom-tag arguments with bracketed values, names with separators, values with blanks around them",
     "design_ref": "DESIGN.md 5 C11",
     "note": "trusted: Coq kernel + vm_compute; hand-written model of scanFields, reflect's CanSet flags and the tag-scan "
             "processor; Go harness (reflect.StructOf + generated static types, unsafe read access to unexported fields) and "
